@@ -297,9 +297,59 @@ def check_warm(case):
                                f'vs S[{idx}]\n' + v.detail)
 
 
+def check_direct(case):
+    """Laws instantiated directly on the library (no program AST): a failing function distributes over batching, and
+    a cache that was filled in a scattered order is still the dataset it caches."""
+    import lazy_dataset
+    n = case['n']
+    if case['direct'] == 'cache_scattered':
+        def mk():
+            d = lazy_dataset.new({f'k{i}': ('s', i) for i in range(n)}) if case['keyed'] else \
+                lazy_dataset.new([('s', i) for i in range(n)])
+            return d.map(lambda x: ('m', x))
+        c = mk().cache()
+        if case['fill'] == 'index':
+            for i in case['order']:
+                c[i % n if n else 0] if n else None
+        elif case['fill'] == 'shuffle':
+            import numpy as np
+            list(c.shuffle(False, rng=np.random.RandomState(case['seed'])))
+        else:
+            list(c[::-1])
+        lhs = c.copy() if case.get('copy') else c
+        compare(record(lhs), record(mk()), 'cache_scattered')
+        return
+    # map_batch_failing
+    E = progs.exc_class(case['exc'])
+    fail = set(case['fail'])
+
+    def f(x):
+        if x[1] in fail:
+            raise E('cannot handle', x[1])
+        return ('m', x)
+    b = case['batch']
+
+    def mk():
+        return lazy_dataset.new([('s', i) for i in range(n)])
+    lhs, rhs = mk().map(f).batch(b), mk().batch(b).batch_map(f)
+    variants = {'plain': (lhs, rhs)}
+    if case['exc'] == 'FilterException':
+        variants['catch'] = (lhs.catch(), rhs.catch())
+    else:
+        variants['catch'] = (lhs.catch(E), rhs.catch(E))
+    variants['catch_unbatch'] = (variants['catch'][0].unbatch(), variants['catch'][1].unbatch())
+    for nm, (l_, r_) in variants.items():
+        compare(record(l_), record(r_), f'map_batch_failing-{nm}')
+
+
 def check(case):
     if 'warm' in case:
         return check_warm(case)
+    if 'direct' in case:
+        try:
+            return check_direct(case)
+        except Violation as v:
+            raise Violation(v.sig, f'{case}\n' + v.detail)
     import numpy as np
     if 'np_seed' in case:
         np.random.seed(case['np_seed'])
@@ -344,4 +394,24 @@ def run_shard(tier, idx, nshards, rec, known):
         rec.case({'law': case['law'], 'lhs': progs.show(case['lhs']), 'rhs': progs.show(case['rhs'])},
                  not case['trivial'], ['law:' + case['law'], f'ctx-depth:{progs.depth(case["lhs"])}'],
                  size=progs.size(case['lhs']))
-    return [drive(one, st_law(), N[tier], rec, known, seed() * 1000 + idx)]
+    outs = [drive(one, st_law(), N[tier], rec, known, seed() * 1000 + idx)]
+    if outs[0].violation:
+        return outs
+
+    def one_direct(case):
+        check(case)
+        rec.case(case, True, ['law:' + case['direct']], size=case['n'])
+
+    @st.composite
+    def st_direct(draw):
+        n = draw(st.integers(0, 7))
+        if draw(st.booleans()):
+            return {'direct': 'cache_scattered', 'n': n, 'keyed': draw(st.booleans()),
+                    'fill': draw(st.sampled_from(['index', 'index', 'shuffle', 'reverse'])),
+                    'order': draw(st.lists(st.integers(-n, max(n - 1, 0)), min_size=n, max_size=2 * n + 1)),
+                    'seed': draw(st.integers(0, 20)), 'copy': draw(st.booleans())}
+        return {'direct': 'map_batch_failing', 'n': n, 'batch': draw(st.integers(1, 4)),
+                'fail': draw(st.lists(st.integers(0, max(n - 1, 0)), min_size=0, max_size=3, unique=True)),
+                'exc': draw(st.sampled_from(['FilterException', 'FilterException', 'VErrA', 'ValueError']))}
+    outs.append(drive(one_direct, st_direct(), max(200, N[tier] // 6), rec, known, seed() * 1000 + 700 + idx))
+    return outs
